@@ -181,6 +181,9 @@ impl Check for C13 {
             return Ok(());
         }
         let mut world = gen::gen_world(src, &d);
+        // the interpreter is given nSequence and nLockTime but not nVersion: BIP68-enabled
+        // transactions (version >= 2) are its implicit precondition
+        world.tx_version = 2;
         // favour satisfiable worlds: hold all keys and preimages most of the time
         if src.chance(3, 4) {
             for k in d.all_keys() {
